@@ -845,7 +845,11 @@ func (g *Gen) addMsg() Op {
 		// the entry inside the message names another auction than the message itself (or none: 0)
 		ea = g.r.Pick("0", fmt.Sprint(a.GetId()+1), fmt.Sprint(g.r.N(4)))
 	}
-	return NewOp("ADDMSG", "a", g.auctionId(a), "ea", ea, "who", g.who(g.r.N(NUsers)), "max", g.maxAmt(a))
+	who := g.who(g.r.N(NUsers))
+	if g.r.P(12) {
+		who = "gov" // the module authority names itself
+	}
+	return NewOp("ADDMSG", "a", g.auctionId(a), "ea", ea, "who", who, "max", g.maxAmt(a))
 }
 
 // Next yields the next operation of the history
